@@ -197,6 +197,28 @@ def _case(item):
             out.violate(PROP, f"C16|payload-runs|{len(hits)}|{_pk(pname)}", f"{tag}: payload ran {len(hits)} times", rp, 1)
         elif tuple(hits[0]) != tuple(want_args):
             out.violate(PROP, f"C16|payload-args|{_pk(pname)}", f"{tag}: payload delivered {hits[0]!r}, expected {want_args!r}", rp, 1)
+    if not overwrite:
+        # a second, independent injection into the same unchanged input must give the same archive (no state carried
+        # from one wrapper / injection to the next)
+        dst2 = os.path.join(d, "out2.pt")
+        if os.path.exists(dst2):
+            os.remove(dst2)
+        try:
+            with redirect_stdout(io.StringIO()), redirect_stderr(io.StringIO()):
+                PyTorchModelWrapper(src).inject_payload(payload, dst2, injection="insertion", overwrite=False)
+            with zipfile.ZipFile(dst2) as z:
+                again = z.read(pkl_name)
+            st.inc("repeat_injections")
+            if again != expect_pkl:
+                n1 = expect_pkl.count(b"builtins\nexec") or expect_pkl.count(b"exec")
+                n2 = again.count(b"builtins\nexec") or again.count(b"exec")
+                out.violate(PROP, "C16|repeat-injection-differs", f"{tag}: a second injection into the same unchanged file gives a different "
+                            f"data.pkl (exec occurrences {n1} -> {n2})", rp, 1)
+        except Exception as e:  # noqa: BLE001
+            out.violate(PROP, f"C16|repeat-injection-raises|{type(e).__name__}", f"{tag}: second injection raised {type(e).__name__}: {e}", rp, 1)
+        finally:
+            if os.path.exists(dst2):
+                os.remove(dst2)
     diff = same_model(obj, loaded)
     if diff:
         out.violate(PROP, f"C16|model-differs|{oname.split('-')[0]}", f"{tag}: loaded object differs from the original: {diff}", rp, 1)
